@@ -458,7 +458,12 @@ fn probes<'a, T: QueryServerTransaction<'a>>(txn: &mut T) -> J {
 /// entries by uuid -> digest of everything stored (attributes as proto strings AND db form, change state)
 fn ents_digest(be: &mut kanidmd_lib::be::BackendReadTransaction<'_>) -> J {
     let mut m = Map::new();
-    for e in kvs::be_all_entries(be).expect("raw entries") {
+    let all = match kvs::be_all_entries(be) {
+        Ok(v) => v,
+        // a database whose rows cannot even be read back is an observation, not a harness failure
+        Err(e) => return json!({"#unreadable": format!("{e:?}")}),
+    };
+    for e in all {
         let mut d = dump_entry(&e);
         if let Some(o) = d.as_object_mut() {
             o.remove("id");
